@@ -34,6 +34,7 @@ type majordomo struct {
 	provs                    []*linkedca.Provisioner
 	identities               map[string]*linkedca.ProvisionerIdentity
 	revokedX, revokedSSH     map[string]string // serial -> reason of the first revocation
+	hold                     map[string]bool   // serials revoked with reason certificateHold: the service answers HOLD for them
 }
 
 func (m *majordomo) before(op, key string) error {
@@ -99,27 +100,30 @@ func (m *majordomo) PostSSHCertificate(context.Context, *linkedca.SSHCertificate
 	return &linkedca.SSHCertificateResponse{}, nil
 }
 
-func (m *majordomo) revoke(op string, table map[string]string, serial, reason string) error {
+func (m *majordomo) revoke(op string, table map[string]string, serial, reason string, code linkedca.RevocationReasonCode) error {
 	if err := m.before(op, serial); err != nil {
 		return err
 	}
 	m.mu.Lock()
 	if _, ok := table[serial]; !ok {
 		table[serial] = reason
+		if code == linkedca.RevocationReasonCode_CERTIFICATE_HOLD {
+			m.hold[op+"/"+serial] = true
+		}
 	}
 	m.mu.Unlock()
 	return m.after(op, serial, true)
 }
 
 func (m *majordomo) RevokeCertificate(_ context.Context, in *linkedca.RevokeCertificateRequest, _ ...grpc.CallOption) (*linkedca.RevokeCertificateResponse, error) {
-	if err := m.revoke("revoke", m.revokedX, in.Serial, in.Reason); err != nil {
+	if err := m.revoke("revoke", m.revokedX, in.Serial, in.Reason, in.ReasonCode); err != nil {
 		return nil, err
 	}
 	return &linkedca.RevokeCertificateResponse{Status: linkedca.RevocationStatus_REVOKED}, nil
 }
 
 func (m *majordomo) RevokeSSHCertificate(_ context.Context, in *linkedca.RevokeSSHCertificateRequest, _ ...grpc.CallOption) (*linkedca.RevokeSSHCertificateResponse, error) {
-	if err := m.revoke("revokessh", m.revokedSSH, in.Serial, in.Reason); err != nil {
+	if err := m.revoke("revokessh", m.revokedSSH, in.Serial, in.Reason, in.ReasonCode); err != nil {
 		return nil, err
 	}
 	return &linkedca.RevokeSSHCertificateResponse{Status: linkedca.RevocationStatus_REVOKED}, nil
@@ -131,9 +135,13 @@ func (m *majordomo) status(op string, table map[string]string, serial string) (l
 	}
 	m.mu.Lock()
 	_, revoked := table[serial]
+	hold := m.hold[map[string]string{"isrevoked": "revoke", "issshrevoked": "revokessh"}[op]+"/"+serial]
 	m.mu.Unlock()
 	if err := m.after(op, serial, revoked); err != nil {
 		return 0, err
+	}
+	if revoked && hold {
+		return linkedca.RevocationStatus_HOLD, nil
 	}
 	if revoked {
 		return linkedca.RevocationStatus_REVOKED, nil
@@ -185,7 +193,7 @@ func newLinkedEnv(hooks *ss.Hooks) *env {
 	yes := true
 	from := oldCA()
 	pub := from.JWK.Public()
-	svc := &majordomo{hooks: hooks, identities: map[string]*linkedca.ProvisionerIdentity{}, revokedX: map[string]string{}, revokedSSH: map[string]string{}}
+	svc := &majordomo{hooks: hooks, identities: map[string]*linkedca.ProvisionerIdentity{}, revokedX: map[string]string{}, revokedSSH: map[string]string{}, hold: map[string]bool{}}
 	for _, p := range (provisioner.List{
 		&provisioner.JWK{ID: "id-jwk", Type: "JWK", Name: "jwk", Key: &pub, Claims: &provisioner.Claims{EnableSSHCA: &yes, AllowRenewalAfterExpiry: &yes}},
 		&provisioner.SSHPOP{ID: "id-sshpop", Type: "SSHPOP", Name: "sshpop"},
